@@ -190,6 +190,9 @@ def run(ctx):
             if float(val) != float(FUNCS[fname](np.asarray(x))):
                 ctx.violation('n0:%s' % method, 'Derivative(%s, n=0, method=%r)(%r) = %r but f(x) = %r' % (fname, method, x, float(val), float(FUNCS[fname](x))), {'f': fname, 'x': x})
             continue
+        bad = pipe.context_certificate(rec)
+        if bad:
+            ctx.brk('oracle-certificate', 'Derivative(%s, n=%d, method=%r, order=%d, %s steps)(%r): %s' % (fname, n, method, order, gen, x, bad), {'f': fname, 'x': x, 'n': n, 'order': order, 'method': method, 'generator': gen})
         cs, why = pipe.column_cases(val, info, rec)
         if why:
             skipped[why] = skipped.get(why, 0) + 1
